@@ -1,5 +1,6 @@
 import OV.Lemmas.C07Splice
 import OV.Lemmas.C07Eval
+import OV.Lemmas.C07Wf
 /-!
   C07 — applying a rewrite replaces only the match and leaves a valid, equivalent graph.
 
@@ -294,6 +295,204 @@ theorem applyRules_preserves (rules : List Rule) (kind : Kind)
               rw [hid] at h2
               exact htrans _ _ _ h2 (ih _ _ _ _ _ _ _ h)
 
+/-! ## Validity: the spliced graph is well-formed -/
+
+/-- What a (given) match and its replacement must satisfy for validity.  `H` = hidden names (interior
+values of the match, interior values of the replacement).
+* `interior` (**OutputsAtRoot**), `clean` (**Removable** ∧ fresh replacement names: unmatched nodes
+  neither read — directly or from a body — nor write a hidden name), `rootOuts`/`outsVisible`
+  (pattern outputs and graph outputs are not hidden);
+* `replWf`: at the insertion point the replacement reads only values that are available once the
+  matched nodes are gone (so: no interior matched value — the condition C07-D6 violates), writes
+  names not yet available, each node's outputs distinct;
+* `replOuts₁/₂`: the replacement defines exactly the root's outputs (name transfer) plus hidden names. -/
+structure SpliceWF (outer : List Name) (g : Graph) (P : Node → Bool) (pre0 : List Node) (root : Node)
+    (post repl : List Node) (H : List Name) : Prop where
+  rootMatched : P root = true
+  postUnmatched : ∀ b ∈ post, P b = false
+  interior : ∀ a ∈ pre0, P a = true → ∀ o ∈ a.outputs, o ∈ H
+  clean : ∀ b ∈ pre0 ++ post, P b = false → (∀ x ∈ b.reads, x ∉ H) ∧ (∀ o ∈ b.outputs, o ∉ H)
+  rootOuts : ∀ o ∈ root.outputs, o ∉ H
+  outsVisible : ∀ o ∈ g.outputs, o ∉ H
+  replWf : wfNodes (outer ++ g.inputs ++ g.initNames ++ (pre0.filter fun n => !P n).flatMap (·.outputs)) repl = true
+  replOuts₁ : ∀ x ∈ repl.flatMap (·.outputs), x ∈ root.outputs ∨ x ∈ H
+  replOuts₂ : ∀ x ∈ root.outputs, x ∈ repl.flatMap (·.outputs)
+
+/-- **Validity of the splice** (one scope level: single assignment, no redefinition of a visible
+name, definition before use including the reads of bodies, graph outputs defined): if the host
+graph is well-formed in a scope where `outer` is visible, so is the graph with `spliceNodes … true`
+as its node list. -/
+theorem applyAt_wf (outer : List Name) (g : Graph) (pre0 post repl : List Node) (root : Node)
+    (matched : List Nat) (H : List Name) (hg : g.nodes = pre0 ++ root :: post)
+    (hpre : ∀ n ∈ pre0, n.id ≠ root.id) (hpost : ∀ n ∈ post, n.id ≠ root.id)
+    (hnew : ∀ n ∈ repl, matched.contains n.id = false)
+    (ok : SpliceWF outer g (fun n => matched.contains n.id) pre0 root post repl H)
+    (hwf : wfGraph outer g = true) :
+    wfGraph outer (g.setNodes (spliceNodes g.nodes root.id matched repl true)) = true := by
+  rw [hg, spliceNodes_eq pre0 post repl root matched ok.rootMatched hpre hpost ok.postUnmatched hnew]
+  have hin : (g.setNodes (pre0.filter (fun n => !(matched.contains n.id)) ++ (repl ++ post))).inputs = g.inputs := by cases g; rfl
+  have hini : (g.setNodes (pre0.filter (fun n => !(matched.contains n.id)) ++ (repl ++ post))).initNames = g.initNames := by cases g; rfl
+  have hout : (g.setNodes (pre0.filter (fun n => !(matched.contains n.id)) ++ (repl ++ post))).outputs = g.outputs := by cases g; rfl
+  have hnodes : (g.setNodes (pre0.filter (fun n => !(matched.contains n.id)) ++ (repl ++ post))).nodes =
+      pre0.filter (fun n => !(matched.contains n.id)) ++ (repl ++ post) := by cases g; rfl
+  unfold wfGraph at hwf ⊢
+  simp only [hin, hini, hout, hnodes]
+  rw [hg] at hwf
+  obtain ⟨hw, ho⟩ := Bool.and_eq_true_iff.mp hwf
+  rw [wfNodes_append] at hw
+  obtain ⟨hw1, hw2⟩ := Bool.and_eq_true_iff.mp hw
+  obtain ⟨_, _, _, hw3⟩ := (wfNodes_cons _ root post).mp hw2
+  -- the unmatched prefix
+  obtain ⟨w1, i1⟩ := wfNodes_filter H (fun n => matched.contains n.id) pre0
+    (fun n hn hp => ok.clean n (by simp [hn]) hp) (fun n hn hp => ok.interior n hn hp)
+    _ _ ⟨fun x hx => Or.inl hx, fun x hx _ => hx⟩ hw1
+  -- the replacement takes the root's place
+  have i2 := i1.ext root.outputs (repl.flatMap (·.outputs)) ok.replOuts₁ (fun x hx _ => ok.replOuts₂ x hx)
+  -- the tail
+  obtain ⟨w3, i3⟩ := wfNodes_filter H (fun _ => false) post
+    (fun n hn _ => ok.clean n (by simp [hn]) (ok.postUnmatched n hn)) (fun _ _ hp => by simp at hp)
+    _ _ i2 hw3
+  have hfp : (post.filter fun n => !(fun _ => false) n) = post := by simp
+  rw [hfp] at w3 i3
+  apply Bool.and_eq_true_iff.mpr
+  constructor
+  · rw [wfNodes_append, wfNodes_append]
+    simp only [Bool.and_eq_true]
+    exact ⟨w1, ok.replWf, w3⟩
+  · apply List.all_eq_true.mpr
+    intro o hoo
+    have hmem : o ∈ outer ++ g.inputs ++ g.initNames ++ (pre0 ++ root :: post).flatMap (·.outputs) := by
+      simpa using List.all_eq_true.mp ho o hoo
+    have hA : o ∈ outer ++ g.inputs ++ g.initNames ++ pre0.flatMap (·.outputs) ++ root.outputs ++ post.flatMap (·.outputs) := by
+      simpa [List.flatMap_append, List.flatMap_cons, List.append_assoc] using hmem
+    have hB := i3.2 o hA (ok.outsVisible o hoo)
+    simpa [List.flatMap_append, List.append_assoc] using hB
+
+/-- non-vacuity of `SpliceWF`: the host of the equivalence example, `outer = []` -/
+example : SpliceWF [] exHost (fun n => [2, 1].contains n.id) [exNeg, exOther] exRelu [exAbs]
+    [.mk 5 "Neg" "" "" [some "x"] ["%5_0"] [] [] [] [], .mk 6 "Relu" "" "" [some "%5_0"] ["r"] [] [] [] []]
+    ["n", "%5_0"] := by
+  constructor <;> decide
+
+/-- Writing rewritten bodies back into the visited node keeps the enclosing graph well-formed when
+the bodies capture no more outer names than before (a rewrite inside a body only reads values the
+matched nodes already read). -/
+theorem writeBack_wf (outer : List Name) (g : Graph) (cur : Nat) (subs' : List (String × Graph))
+    (hcaps : ∀ n ∈ g.nodes, n.id = cur → ∀ x ∈ capsOf BIG subs', x ∈ n.caps)
+    (hwf : wfGraph outer g = true) :
+    wfGraph outer (g.setNodes (g.nodes.map fun n =>
+      if n.id == cur then n.setBodies (capsOf BIG subs') subs' else n)) = true := by
+  -- make the update total in the node (identity where the captures would not shrink)
+  let f : Node → Node := fun n =>
+    if n.id == cur ∧ (∀ x ∈ capsOf BIG subs', x ∈ n.caps) then n.setBodies (capsOf BIG subs') subs' else n
+  have hf : g.nodes.map (fun n => if n.id == cur then n.setBodies (capsOf BIG subs') subs' else n) = g.nodes.map f := by
+    apply List.map_congr_left
+    intro n hn
+    by_cases hid : n.id = cur
+    · have hc := hcaps n hn hid
+      have hb : (n.id == cur) = true := by simpa using hid
+      simp only [f, hb, true_and]
+      rw [if_pos hc]; rfl
+    · have hb : (n.id == cur) = false := by simpa using hid
+      simp only [f, hb]
+      rw [if_neg (by simp)]
+      simp
+  rw [hf]
+  have hout : ∀ n, (f n).outputs = n.outputs := by
+    intro n; simp only [f]; split <;> simp [setBodies_outputs]
+  have hreads : ∀ n, ∀ x ∈ (f n).reads, x ∈ n.reads := by
+    intro n x hx
+    simp only [f] at hx
+    split at hx
+    · rename_i hc
+      rw [setBodies_reads] at hx
+      unfold Node.reads
+      rcases List.mem_append.mp hx with h | h
+      · exact List.mem_append.mpr (Or.inl h)
+      · exact List.mem_append.mpr (Or.inr (hc.2 x h))
+    · exact hx
+  unfold wfGraph at hwf ⊢
+  obtain ⟨hw, ho⟩ := Bool.and_eq_true_iff.mp hwf
+  have e1 : (g.setNodes (g.nodes.map f)).inputs = g.inputs := by cases g; rfl
+  have e2 : (g.setNodes (g.nodes.map f)).initNames = g.initNames := by cases g; rfl
+  have e3 : (g.setNodes (g.nodes.map f)).outputs = g.outputs := by cases g; rfl
+  have e4 : (g.setNodes (g.nodes.map f)).nodes = g.nodes.map f := by cases g; rfl
+  have e5 : (g.nodes.map f).flatMap (·.outputs) = g.nodes.flatMap (·.outputs) := by
+    rw [List.flatMap_map]; congr 1; funext n; exact hout n
+  simp only [e1, e2, e3, e4, e5]
+  exact Bool.and_eq_true_iff.mpr ⟨wfNodes_map_shrink f hout hreads _ _ hw, ho⟩
+
+/-- **Validity through a whole pass**: if every single application keeps the graph well-formed
+(`applyAt_wf` for the given matches) and rewritten bodies capture no more than before, the output
+of `passLoop` — any number of repeated/overlapping applications — is well-formed. -/
+theorem applyRules_wf (outer : List Name) (rules : List Rule) (kind : Kind)
+    (recurse : PassSt → Graph → Except Err (PassSt × Graph))
+    (hstep : ∀ st lo g node st' lo' g' first,
+      tryRules kind rules st lo g node = .ok (.applied st' lo' g' first) →
+      wfGraph outer g = true → wfGraph outer g' = true)
+    (hcaps : ∀ st (node : Node) st' subs' (g1 : Graph), recurseBodies recurse st node.subs = .ok (st', subs') →
+      ∀ n ∈ g1.nodes, n.id = node.id → ∀ x ∈ capsOf BIG subs', x ∈ n.caps)
+    (fuel : Nat) (st : PassSt) (lo : List (String × Nat)) (g : Graph) (cur : Option Nat) st' lo' g'
+    (h : passLoop rules kind recurse fuel st lo g cur = .ok (st', lo', g')) :
+    wfGraph outer g = true → wfGraph outer g' = true :=
+  applyRules_preserves rules kind recurse (fun a b => wfGraph outer a = true → wfGraph outer b = true)
+    (fun _ h => h) (fun _ _ _ h1 h2 h => h2 (h1 h)) hstep
+    (fun st node st' subs' g1 hrec hw => writeBack_wf outer g1 node.id subs' (hcaps st node st' subs' g1 hrec) hw)
+    fuel st lo g cur st' lo' g' h
+
+/-! ## Equivalence through a whole pass -/
+
+/-- same meaning at nesting depth `d + 1`, in every enclosing environment, for all arguments -/
+def GraphEquiv {V} (sem : Sem V) (d : Nat) (g g' : Graph) : Prop :=
+  ∀ outer args, evalGraph sem (d + 1) outer g' args = evalGraph sem (d + 1) outer g args
+
+/-- **Write-back of rewritten bodies (`hbody` of `applyRules_preserves`, for If/Loop bodies alike).**
+If the bodies handed back by the recursion are pairwise equivalent to the node's bodies (as
+functions of enclosing environment and arguments, at depth `d`) and capture the same outer names,
+the enclosing graph keeps its meaning.  (Remaining gap: a rewrite that makes a body capture
+*fewer* names — e.g. a replacement that drops a bound input — changes `caps`; covering it needs
+"a body's meaning depends only on the names it mentions", not proved here.) -/
+theorem writeBack_equiv {V} (sem : Sem V) (d : Nat) (g : Graph) (cur : Nat) (subs' : List (String × Graph))
+    (h : ∀ n ∈ g.nodes, n.id = cur → capsOf BIG subs' = n.caps ∧ BodiesEquiv (evalGraph sem d) subs' n.subs) :
+    GraphEquiv sem d g (g.setNodes (g.nodes.map fun n =>
+      if n.id == cur then n.setBodies (capsOf BIG subs') subs' else n)) := by
+  intro outer args
+  have e1 : ∀ ns, startEnv sem outer (g.setNodes ns) args = startEnv sem outer g args := by intro ns; cases g; rfl
+  have e2 : ∀ ns, (g.setNodes ns).outputs = g.outputs := by intro ns; cases g; rfl
+  have e3 : ∀ ns, (g.setNodes ns).nodes = ns := by intro ns; cases g; rfl
+  simp only [evalGraph, e1, e2, e3]
+  cases startEnv sem outer g args with
+  | none => rfl
+  | some ρ0 =>
+    simp only [Option.bind_some]
+    rw [evalNodes_map_congr]
+    intro n hn ρ
+    by_cases hid : n.id = cur
+    · obtain ⟨hc, hb⟩ := h n hn hid
+      have hb' : (n.id == cur) = true := by simpa using hid
+      simp only [hb', if_true]
+      rw [hc]
+      exact evalNode_setBodies sem (evalGraph sem d) ρ n subs' hb
+    · have hb' : (n.id == cur) = false := by simpa using hid
+      simp [hb']
+
+/-- **Equivalence through a whole pass**: if every single application keeps the meaning
+(`applyAt_equiv` for the given matches) and the recursion into bodies hands back equivalent bodies
+with the same captures, the output of `passLoop` — any number of repeated/overlapping applications
+— has the meaning of its input. -/
+theorem applyRules_equiv {V} (sem : Sem V) (d : Nat) (rules : List Rule) (kind : Kind)
+    (recurse : PassSt → Graph → Except Err (PassSt × Graph))
+    (hstep : ∀ st lo g node st' lo' g' first,
+      tryRules kind rules st lo g node = .ok (.applied st' lo' g' first) → GraphEquiv sem d g g')
+    (hrec : ∀ st (node : Node) st' subs' (g1 : Graph), recurseBodies recurse st node.subs = .ok (st', subs') →
+      ∀ n ∈ g1.nodes, n.id = node.id → capsOf BIG subs' = n.caps ∧ BodiesEquiv (evalGraph sem d) subs' n.subs)
+    (fuel : Nat) (st : PassSt) (lo : List (String × Nat)) (g : Graph) (cur : Option Nat) st' lo' g'
+    (h : passLoop rules kind recurse fuel st lo g cur = .ok (st', lo', g')) : GraphEquiv sem d g g' :=
+  applyRules_preserves rules kind recurse (GraphEquiv sem d)
+    (fun _ _ _ => rfl) (fun _ _ _ h1 h2 outer args => (h2 outer args).trans (h1 outer args)) hstep
+    (fun st node st' subs' g1 hr => writeBack_equiv sem d g1 node.id subs' (hrec st node st' subs' g1 hr))
+    fuel st lo g cur st' lo' g' h
+
 /-! ## Signature -/
 
 /-- All values the replacement returns are new values (fresh `%…` names). -/
@@ -316,7 +515,7 @@ theorem renamePassthru_id (d : Nat) (pairs : List (Name × NewOut))
 
 /-- Graph input names, output names and initializers are untouched by the splice when the
 replacement returns new values. -/
-theorem applyAt_signature (d : Nat) (g : Graph) (m : Match) (new : List Node)
+theorem applyAt_signature_fresh (d : Nat) (g : Graph) (m : Match) (new : List Node)
     (newOutputs : List NewOut) (rm : Bool) (h : NoPassthru newOutputs) :
     (applyAt d g m new newOutputs rm).inputs = g.inputs ∧
     (applyAt d g m new newOutputs rm).outputs = g.outputs ∧
@@ -328,7 +527,141 @@ theorem applyAt_signature (d : Nat) (g : Graph) (m : Match) (new : List Node)
     have := List.of_mem_zip hp
     exact h p.2 this.2
 
-/-! ### C07-D4 — the full signature statement (no `NoPassthru`) is false -/
+theorem renGraph_inputs (x o : Name) (d : Nat) (g : Graph) (h : x ∉ g.inputs) :
+    (renGraph x o d g).inputs = g.inputs := by
+  cases d with
+  | zero => rfl
+  | succ d =>
+    cases g with
+    | mk ins inits nodes outs =>
+      simp only [renGraph, Graph.inputs] at h ⊢
+      have : ∀ y ∈ ins, renName x o y = y := by
+        intro y hy
+        unfold renName
+        have : (y == x) = false := by
+          have : y ≠ x := fun e => h (e ▸ hy)
+          simpa using this
+        simp [this]
+      rw [List.map_congr_left this, List.map_id']
+
+theorem renamePassthru_inputs (d : Nat) (pairs : List (Name × NewOut)) :
+    ∀ g : Graph, (∀ p ∈ pairs, ∀ x, p.2 = .existing x → x ∉ g.inputs) →
+      (renamePassthru d pairs g).inputs = g.inputs := by
+  unfold renamePassthru
+  induction pairs with
+  | nil => intro g _; rfl
+  | cons p rest ih =>
+    intro g h
+    obtain ⟨o, nv⟩ := p
+    simp only [List.foldl_cons]
+    cases nv with
+    | existing x =>
+      have hx : x ∉ g.inputs := h (o, .existing x) (by simp) x rfl
+      have e := renGraph_inputs x o d g hx
+      simp only
+      rw [ih (renGraph x o d g) (fun q hq y hy => by rw [e]; exact h q (by simp [hq]) y hy), e]
+    | fresh t => exact ih g (fun q hq => h q (by simp [hq]))
+    | none => exact ih g (fun q hq => h q (by simp [hq]))
+
+theorem renGraph_outputs (x o : Name) (d : Nat) (g : Graph) (h : x ∉ g.outputs) :
+    (renGraph x o d g).outputs = g.outputs := by
+  cases d with
+  | zero => rfl
+  | succ d =>
+    cases g with
+    | mk ins inits nodes outs =>
+      simp only [renGraph, Graph.outputs] at h ⊢
+      have : ∀ y ∈ outs, renName x o y = y := by
+        intro y hy
+        unfold renName
+        have : (y == x) = false := by
+          have : y ≠ x := fun e => h (e ▸ hy)
+          simpa using this
+        simp [this]
+      rw [List.map_congr_left this, List.map_id']
+
+theorem renamePassthru_outputs (d : Nat) (pairs : List (Name × NewOut)) :
+    ∀ g : Graph, (∀ p ∈ pairs, ∀ x, p.2 = .existing x → x ∉ g.outputs) →
+      (renamePassthru d pairs g).outputs = g.outputs := by
+  unfold renamePassthru
+  induction pairs with
+  | nil => intro g _; rfl
+  | cons p rest ih =>
+    intro g h
+    obtain ⟨o, nv⟩ := p
+    simp only [List.foldl_cons]
+    cases nv with
+    | existing x =>
+      have hx : x ∉ g.outputs := h (o, .existing x) (by simp) x rfl
+      have e := renGraph_outputs x o d g hx
+      simp only
+      rw [ih (renGraph x o d g) (fun q hq y hy => by rw [e]; exact h q (by simp [hq]) y hy), e]
+    | fresh t => exact ih g (fun q hq => h q (by simp [hq]))
+    | none => exact ih g (fun q hq => h q (by simp [hq]))
+
+/-- what fixes e8a0767 and 1dc987d guarantee: after `addIdentities` no returned value is one of the
+listed interface names -/
+theorem addIdentities_no_input (inputs : List Name) (outs : List NewOut) :
+    ∀ base, ∀ o ∈ (addIdentities inputs base outs).2, ∀ x, o = .existing x → x ∉ inputs := by
+  induction outs with
+  | nil => intro base o ho; simp [addIdentities] at ho
+  | cons a rest ih =>
+    intro base o ho x hx
+    cases a with
+    | existing y =>
+      by_cases hy : inputs.contains y = true
+      · simp only [addIdentities, hy, if_true, List.mem_cons] at ho
+        rcases ho with rfl | ho
+        · cases hx
+        · exact ih _ o ho x hx
+      · have hy' : inputs.contains y = false := by simpa using hy
+        simp only [addIdentities, hy', Bool.false_eq_true, if_false, List.mem_cons] at ho
+        rcases ho with rfl | ho
+        · cases hx; simpa using hy'
+        · exact ih _ o ho x hx
+    | fresh t =>
+      simp only [addIdentities, List.mem_cons] at ho
+      rcases ho with rfl | ho
+      · cases hx
+      · exact ih _ o ho x hx
+    | none =>
+      simp only [addIdentities, List.mem_cons] at ho
+      rcases ho with rfl | ho
+      · cases hx
+      · exact ih _ o ho x hx
+
+/-- **The graph signature is untouched — full statement (no `NoPassthru`), after fixes e8a0767 and
+1dc987d**: whatever the replacement returns — new values, bound inputs, initializers, values that
+are graph inputs or graph outputs — the splice applied to what `tryRule` hands it (returned graph
+inputs and graph outputs routed through `Identity` by `addIdentities`) leaves the graph's input
+names and output names as they were. -/
+theorem applyAt_signature (d : Nat) (g : Graph) (m : Match) (new : List Node) (outs : List NewOut)
+    (base : Nat) (rm : Bool) :
+    (applyAt d g m (new ++ (addIdentities (g.inputs ++ g.outputs) base outs).1)
+        (addIdentities (g.inputs ++ g.outputs) base outs).2 rm).inputs = g.inputs ∧
+    (applyAt d g m (new ++ (addIdentities (g.inputs ++ g.outputs) base outs).1)
+        (addIdentities (g.inputs ++ g.outputs) base outs).2 rm).outputs = g.outputs := by
+  unfold applyAt
+  have hpre : ∀ ns, ((retireOld g m rm).setNodes ns).inputs = g.inputs := by
+    intro ns; cases rm <;> cases g <;> rfl
+  have hpre' : ∀ ns, ((retireOld g m rm).setNodes ns).outputs = g.outputs := by
+    intro ns; cases rm <;> cases g <;> rfl
+  have hno := fun p (hp : p ∈ (dedupOuts [] m.outputs).zip (addIdentities (g.inputs ++ g.outputs) base outs).2) x
+      (hx : p.2 = NewOut.existing x) =>
+    addIdentities_no_input (g.inputs ++ g.outputs) outs base p.2 (List.of_mem_zip hp).2 x hx
+  constructor
+  · rw [renamePassthru_inputs]
+    · exact hpre _
+    · intro p hp x hx
+      rw [hpre]
+      exact fun hm => hno p hp x hx (List.mem_append.mpr (Or.inl hm))
+  · rw [renamePassthru_outputs]
+    · exact hpre' _
+    · intro p hp x hx
+      rw [hpre']
+      exact fun hm => hno p hp x hx (List.mem_append.mpr (Or.inr hm))
+
+/-! ### C07-D4 (fixed e8a0767), C07-D10 (fixed 1dc987d) — the code before the fixes -/
 
 def d4Host : Graph :=
   .mk ["x"] []
@@ -336,13 +669,47 @@ def d4Host : Graph :=
      .mk 3 "Add" "" "" [some "m", some "x"] ["z"] [] [] [] []] ["z"]
 def d4Match : Match := { root := 2, nodes := [2, 1], bindings := [(0, some "x")], outputs := ["m"] }
 
-/-- `Neg(Neg(x)) → x`: the value the replacement returns is renamed to the old output's name; here
-it is the graph input `x`, which comes out as `m` (replayed on the real `rewrite`). -/
-theorem applyAt_signature_full_refuted :
+/-- Before e8a0767 the returned value went into the splice as it was: `Neg(Neg(x)) → x` renamed the
+graph input `x` to `m`. -/
+theorem applyAt_signature_prefix_refuted :
     ¬ (∀ (d : Nat) (g : Graph) (m : Match) (new : List Node) (outs : List NewOut) (rm : Bool),
         (applyAt d g m new outs rm).inputs = g.inputs) := by
   intro h
   exact absurd (h 10 d4Host d4Match [] [.existing "x"] true) (by decide)
+
+/-- `Neg(Neg(x)) → x` -/
+def d4Rule : Rule :=
+  { name := "r1", removeNodes := true, asFunction := false, guardTag := false,
+    pat := { nodes := [⟨"Neg", "", [.var 0], 1, []⟩, ⟨"Neg", "", [.out 0 0], 1, []⟩], root := 1, outputs := [.out 1 0] },
+    repl := { inits := [], uniqueInits := false, nodes := [], outputs := [.var 0] } }
+
+/-- regression of the C07-D4 witness through the whole pass: one application, the input is still `x` -/
+theorem d4_fixed :
+    ((applyToModel [d4Rule] 100 { opsets := [("", 18)], graph := d4Host, funcs := [] }).toOption.map
+      fun r => (r.1, r.2.graph.inputs, r.2.graph.outputs)) = some (1, ["x"], ["z"]) := by
+  decide +kernel
+
+def d10Host : Graph :=
+  .mk ["a"] []
+    [.mk 1 "Abs" "" "" [some "a"] ["x"] [] [] [] [], .mk 2 "Neg" "" "" [some "x"] ["n"] [] [] [] [],
+     .mk 3 "Neg" "" "" [some "n"] ["m"] [] [] [] [], .mk 4 "Add" "" "" [some "m", some "x"] ["z"] [] [] [] []] ["z", "x"]
+
+/-- C07-D10, the code between e8a0767 and 1dc987d (only graph *inputs* routed through `Identity`):
+a returned value that is a graph output was renamed to the matched output's name — outputs
+`(z, x)` became `(z, m)` (replayed then on the real code). -/
+theorem applyAt_signature_output_prefix_refuted :
+    ¬ (∀ (d : Nat) (g : Graph) (m : Match) (new : List Node) (outs : List NewOut) (base : Nat) (rm : Bool),
+        (applyAt d g m (new ++ (addIdentities g.inputs base outs).1) (addIdentities g.inputs base outs).2 rm).outputs
+          = g.outputs) := by
+  intro h
+  exact absurd (h 10 d10Host { root := 3, nodes := [3, 2], bindings := [(0, some "x")], outputs := ["m"] }
+    [] [.existing "x"] 5 true) (by decide)
+
+/-- regression of the C07-D10 witness through the whole pass: one application, signature `(a) → (z, x)` kept -/
+theorem d10_fixed :
+    ((applyToModel [d4Rule] 100 { opsets := [("", 18)], graph := d10Host, funcs := [] }).toOption.map
+      fun r => (r.1, r.2.graph.inputs, r.2.graph.outputs)) = some (1, ["a"], ["z", "x"]) := by
+  decide +kernel
 
 /-! ## Initializers (after fix 340a24c: a clashing new initializer is registered as `name_k`) -/
 
@@ -438,7 +805,7 @@ theorem updOpsets_clash (imports : List (String × Nat)) (d : String) (cur v : N
   rw [h]
   simp [hne]
 
-/-! ## C07-D3 — a pattern with two output nodes: the insertion point is the *first* output node -/
+/-! ## C07-D3 (fixed a8da06e) — a pattern with two output nodes: the insertion point is the *first* output node -/
 
 def d3Host : Graph :=
   .mk ["x"] []
@@ -449,17 +816,22 @@ def d3Match : Match := { root := 3, nodes := [3, 1], bindings := [(0, some "x")]
 def d3New : List Node :=
   [.mk 5 "Relu" "" "" [some "x"] ["%5_0"] [] [] [] [], .mk 6 "Neg" "" "" [some "x"] ["%6_0"] [] [] [] []]
 
-/-- The host is well-formed, the match is removable, the replacement is the pattern itself —
-and the spliced graph defines `n` after its use in `Abs` (replayed on the real code: onnx.checker
-"Nodes in a graph must be topologically sorted").  Hence `applyAt_wf`/`applyAt_equiv` carry the
-hypothesis that all matched nodes precede the root *and no pattern output is produced by a node
-other than the root* (`OutputsAtRoot`). -/
-theorem applyAt_wf_full_refuted :
+/-- The splice alone (the code before a8da06e): the host is well-formed, the match is removable,
+the replacement is the pattern itself — and the spliced graph defines `n` after its use in `Abs`
+(replayed then: onnx.checker "Nodes in a graph must be topologically sorted").  `applyAt_wf` /
+`applyAt_equiv` therefore carry **OutputsAtRoot**. -/
+theorem applyAt_wf_prefix_refuted :
     wfGraph [] d3Host = true ∧ validToReplace d3Host d3Match.nodes d3Match.outputs = true ∧
     wfGraph [] (applyAt 10 d3Host d3Match d3New [.fresh "%5_0", .fresh "%6_0"] true) = false := by
   decide
 
-/-! ## C07-D6 — a pattern variable bound to the output of another matched node -/
+/-- after a8da06e the pass ends with `sort()`: the same spliced graph, sorted, is well-formed
+(`sortGraph` renders onnx_ir's stable topological sort — a contract; this is its instance here) -/
+theorem d3_sorted_wf :
+    wfGraph [] (sortGraph (applyAt 10 d3Host d3Match d3New [.fresh "%5_0", .fresh "%6_0"] true)) = true := by
+  decide +kernel
+
+/-! ## C07-D6 (fixed f6e9b0d) — a pattern variable bound to the output of another matched node -/
 
 def d6Host : Graph :=
   .mk ["x"] []
@@ -472,13 +844,30 @@ def d6Rule : Rule :=
               nodes := [⟨"Abs", "", none, [.var 1], 1, []⟩, ⟨"Sub", "", none, [.var 0, .out 0 0], 1, []⟩],
               outputs := [.out 1 0] } }
 
-/-- On `a = Abs(x); z = Sub(a, a)` the match succeeds with `v0 ↦ a` (an interior matched value),
-`_valid_to_replace` accepts, and removing the matched `Abs` is refused because the replacement
-reads `a`: the pass raises on a valid model with a semantics-preserving rule. -/
-theorem unsafeRemove_witness :
-    (applyToModel [d6Rule] 100 { opsets := [("", 18)], graph := d6Host, funcs := [] }).toOption = none ∧
-    (matchAt d6Host d6Rule (d6Host.nodes.getD 1 default)).isSome = true := by
+/-- The skip test of f6e9b0d covers everything `graph.remove(safe=True)` refuses: when it is false,
+no replacement node reads an interior value of the match. -/
+theorem readsRemoved_covers_unsafeRemove (matched : List Node) (outs : List Name) (new : List Node)
+    (newOuts : List NewOut) (h : readsRemoved matched outs new newOuts = false) :
+    unsafeRemove matched outs new = false := by
+  unfold readsRemoved at h
+  simp only [Bool.or_eq_false_iff] at h
+  exact h.1
+
+/-- The situation in which the code before f6e9b0d raised: on `a = Abs(x); z = Sub(a, a)` the match
+succeeds with `v0 ↦ a` (an interior matched value), `_valid_to_replace` accepts, and the
+replacement reads `a`, whose producer is to be removed (`graph.remove(safe=True)` raised
+ValueError — PassError from `rewrite()` on a valid model). -/
+theorem unsafeRemove_prefix_refuted :
+    (matchAt d6Host d6Rule (d6Host.nodes.getD 1 default)).isSome = true ∧
+    unsafeRemove [d6Host.nodes.getD 1 default, d6Host.nodes.getD 0 default] ["z"]
+      [.mk 3 "Abs" "" "" [some "x"] ["%3_0"] [] [] [] [], .mk 4 "Sub" "" "" [some "a", some "%3_0"] ["%4_0"] [] [] [] []] = true := by
   decide
+
+/-- regression: the pass now skips the rule there — no error, no application, the graph as it was -/
+theorem unsafeRemove_skipped :
+    ((applyToModel [d6Rule] 100 { opsets := [("", 18)], graph := d6Host, funcs := [] }).toOption.map
+      fun r => (r.1, r.2.graph.nodes.map (·.id), wfGraph [] r.2.graph)) = some (0, [1, 2], true) := by
+  decide +kernel
 
 /-! ## `as_function` -/
 
